@@ -36,7 +36,7 @@ def required_buckets(tier):
         req.append(f'C05/conc/{nd}/')
     for k in ('solid', 'liquid', 'enzyme'):
         req.append(f'C05/conc/mol/L/{k}/' if k != 'enzyme' else 'C05/conc/U/L/enzyme/')
-    req += ['C05/infeasible/', 'C05/infeasible/solvent_container_short', 'C05/regression/mole_concentration_of_an_enzyme', 'C05/total/L', 'C05/total/g', 'C05/total/mol', 'C05/quantity/g/', 'C05/quantity/mol/',
+    req += ['C05/infeasible/', 'C05/infeasible/solvent_container_short', 'C05/regression/mole_concentration_of_an_enzyme', 'C05/total/L', 'C05/total/g', 'C05/total/mol', 'C05/constructive/total_in_activity_units', 'C05/constructive/per_unit_of_activity', 'C05/quantity/g/', 'C05/quantity/mol/',
             'C05/quantity/L/', 'C05/quantity/U/']
     return req
 
